@@ -469,12 +469,14 @@ func (c *fnCtx) applyContract(st *State, ci calleeInfo, args []SymVal, rt types.
 		bind(env)
 		if nres == 1 {
 			env.vars[rnames[0]] = res
+			env.vars["result"] = res
 			if isErrorType(rt) {
 				env.vars["err"] = res
 			}
 		} else {
 			for i := 0; i < nres && i < len(rnames); i++ {
 				env.vars[rnames[i]] = res.Fs[i]
+				env.vars[fmt.Sprintf("result%d", i)] = res.Fs[i]
 				if i == nres-1 && isErrorType(ci.sig.Results().At(i).Type()) {
 					if _, ok := env.vars["err"]; !ok {
 						env.vars["err"] = res.Fs[i]
@@ -511,6 +513,7 @@ func (c *fnCtx) havocItem(st *State, env *Env, ci calleeInfo, item string) {
 					n := c.fresh("hv")
 					c.declare(n, srt)
 					st.heap[l.comp] = c.define("H", fmt.Sprintf("(Array Ref %s)", srt), app("store", old, l.ref, n))
+					st.hbound[l.comp] = "$cur"
 					// well-formedness of the new leaf
 					tmp := SymVal{K: l.k, T: l.t, S: n}
 					if l.k == KInt || l.k == KRef || l.k == KIface || l.k == KStr {
@@ -663,6 +666,7 @@ func (c *fnCtx) execAppend(st *State, cc *ssa.CallCommon, rt types.Type, pos tok
 					inPlace, s.Fs[2].S, nh, fr, old, s.Fs[0].S, s.Fs[1].S, nh, fr),
 			))
 			st.heap[l.comp] = nh
+			st.hbound[l.comp] = "$cur"
 		} else {
 			c.havocComp(st, l.comp)
 		}
@@ -719,6 +723,7 @@ func (c *fnCtx) runDefers(st *State, pos token.Pos) {
 		no := st.clone()
 		c.assume(no, sNot(d.flag))
 		c.mergeTwo(st, yes, no)
+		c.sealBounds(st)
 	}
 	st.defers = nil
 }
@@ -743,6 +748,7 @@ func (c *fnCtx) mergeTwo(dst, a, b *State) {
 		dst.base = a.base
 	}
 	dst.heap = map[string]string{}
+	dst.hbound = map[string]string{}
 	var ks []string
 	for k := range keys {
 		ks = append(ks, k)
@@ -751,6 +757,10 @@ func (c *fnCtx) mergeTwo(dst, a, b *State) {
 	for _, k := range ks {
 		srt := c.compSort(k)
 		dst.heap[k] = c.define("H", fmt.Sprintf("(Array Ref %s)", srt), sIte(cond, c.comp(a, k, srt), c.comp(b, k, srt)))
+		dst.hbound[k] = "$cur"
+	}
+	if a.baseTop != b.baseTop || a.base != b.base {
+		dst.baseTop = "$cur"
 	}
 	dst.ghost = map[string]string{}
 	for k, v := range a.ghost {
